@@ -205,7 +205,7 @@ def biased_pair(draw):
         else:
             cand = "%s:%s" % (draw(st.sampled_from(ROOTS + ["C#", "B#", "Gb"])), rest)
         return cand if H.accepts(cand) and encodable(cand) else draw(st.sampled_from(p))
-    return {"ref": ref, "est1": near(ref), "est2": near(ref)}
+    return {"ref": ref, "est1": near(ref), "est2": near(ref), "ref2": draw(st.sampled_from(p + ["X", "N", "X", "N"]))}
 
 
 def pred_pair(case, ctx):
@@ -216,6 +216,18 @@ def pred_pair(case, ctx):
             raise Violation("%s: reference %r is -1 against one estimate but not another (%r, %r)" % (f, r, e1, e2))
     if any(res[f][0] == 1 for f in FNS):
         ctx.event("some_rule_matches")
+    # a comparison is decided pair by pair: evaluating a whole list (mixed references, incl. X and N somewhere in it) must give exactly
+    # what the single-pair calls give
+    if "ref2" in case:
+        R_ = [r, case["ref2"], r, "X", "N", case["ref2"]]
+        E_ = [e1, e2, r, e1, e2, "X"]
+        for f in FNS:
+            batch = np.asarray(ctx.call(getattr(chord, f), list(R_), list(E_)), dtype=float)
+            for i, (a_, b_) in enumerate(zip(R_, E_)):
+                single = float(np.asarray(ctx.call(getattr(chord, f), [a_], [b_]))[0])
+                if batch[i] != single:
+                    raise Violation("%s(%r, %r) = %r inside the list %r but %r when called on that pair alone" % (f, a_, b_, batch[i], R_, single))
+        ctx.event("mixed_reference_list")
     return nt > 0
 
 
